@@ -164,18 +164,10 @@ Definition spec_flatten (axis : option Z) (t : ty) (vs : list value) : res value
       else rmap VList (flatten_spec a t vs)
   end.
 
-(* ak.num(array, axis): axis 0 is the length (for an array that IS a record array: the length, once per field,
-   as a record - RecordArray::num treats records as transparent) *)
+(* ak.num(array, axis): axis 0 is the length *)
 Definition spec_num (axis : Z) (t : ty) (vs : list value) : res value :=
   do ax <- resolve_axis_top t axis;
-  if ax =? 0 then
-    let n := VNum (DZ (zlen vs)) in
-    match t with
-    | TRec (Some ks) ts => if Nat.eqb (length ks) (length ts) then Ok (VRec (map (fun k => (k, n)) ks)) else Err EValue
-    | TRec None ts => Ok (VTup (map (fun _ => n) ts))
-    | TUnion _ => unspecified
-    | _ => Ok n
-    end
+  if ax =? 0 then (match t with TUnion _ => unspecified | _ => Ok (VNum (DZ (zlen vs))) end)
   else rmap VList (num_spec axis t vs).
 
 (* ak.local_index(array, axis) *)
